@@ -12,7 +12,7 @@ E = "bounded-exhaustive enumeration of a finite input lattice on the real functi
 checks = {
  "C01": dict(engine="S", cat="model_checking", tech=S,
    text="every schedule within a preemption bound and every fault placement within a fault budget of 2-3 thread lock programs (Lock/TryLock/LockWithCtx+cancel/two tenures/hold across a renewal) on the real kvlock+inmem+timeout code; holders-counter oracle with a scheduling point inside the critical section",
-   note="bounded: 2-3 threads, P<=2 (quick) / P<=3 (thorough), F<=1/2; the cooperative scheduler cannot see data races; the maximal-progress virtual clock encodes the premise that live holders renew in time; in-memory storage backend"),
+   note="bounded: 2-3 threads, P<=2 (quick) / P<=3 (thorough), F<=1/2; the maximal-progress virtual clock encodes the premise that live holders renew in time; in-memory storage, plus a family over the Redis backend (miniredis, command-level scheduling points, no cancellable contexts because go-redis runs those commands on its own goroutine); the cooperative scheduler cannot see data races: a separate free-running -race audit of distlock (time-boxed, supplementary) audits that assumption"),
  "C03": dict(engine="Q", cat="model_checking", tech=Q,
    text="all sequences of Storage operations over 3 keys / small value, expiry, version-kind and pattern alphabets to a fixpoint of the canonical model state; in-memory and Redis (miniredis) backends driven in lock-step and compared with a reference model after every operation",
    note="trusted: miniredis behaves like Redis for SETNX/WATCH/MULTI/EXEC/MSET/PX/SCAN; version strings abstracted to tokens (only compared for equality by both backends); one known finding (leading '/' stripped by the Redis backend) cuts exploration behind writes to the slash-prefixed key"),
@@ -27,7 +27,7 @@ checks = {
    note="sync.Pool content is not part of the state key (argument in DESIGN.md C10)"),
  "C11": dict(engine="Q", cat="model_checking", tech=Q,
    text="same state graphs as C10 and C08 explored to a fixpoint; oracle: with every iterator closed / after every LRU call, nodes reachable from the list head == live entries + 1, no removed-but-linked node, every refCnt 0; a leak prevents the fixpoint",
-   note="pool-parked nodes are not counted (the property speaks of what is reachable from the list)"),
+   note="pool-parked nodes are not counted (the property speaks of what is reachable from the list); includes a small Engine-S section (2-3 threads with overlapping creations, P<=2) for the capacity bound"),
  "C14": dict(engine="Q", cat="model_checking", tech=Q,
    text="all call sequences over the full method set for capacities 0..4(6) to a fixpoint of (r, w, occupancy); slice model incl. exact ErrExhausted/io.EOF/panic conditions; zeroing of consumed slots through an accessor; no-dedup enumeration to depth 4(5) as cross-check of the abstraction; deterministic sweep of capacity 1000",
    note="elements are opaque to the buffer (data independence)"),
@@ -51,7 +51,7 @@ checks = {
    note="no symlink entries; real file system under a mktemp directory that is removed afterwards"),
  "C02": dict(engine="S", cat="model_checking", tech=S + "; linearizability of every recorded history decided by porcupine",
    text="every program assignment of 2-3 threads x 1-2 Storage operations (Create/Get/Put/CasByVersion/Delete/PutMany/GetMany) from the empty and a pre-loaded store; in-memory: every schedule within P<=3 with points at the mutex and at every statement executed without the mutex; Redis: every interleaving of the clients' Redis commands against miniredis; oracle: documented outcomes only, write<->version bijection (freshness), per-key linearizability, final read-all",
-   note="Redis atomicity is explored at command granularity (the granularity at which SETNX/WATCH protect); miniredis is trusted to execute single commands atomically like Redis; go-redis internals run uninstrumented inside one scheduling step"),
+   note="Redis atomicity is explored at command granularity (the granularity at which SETNX/WATCH protect); miniredis is trusted to execute single commands atomically like Redis; go-redis internals run uninstrumented inside one scheduling step; version freshness under true parallelism (id generator) and data races are covered by the supplementary free-running -race audit (inmem, ulid), which is time-boxed, not exhaustive"),
  "C04": dict(engine="S", cat="model_checking", tech=S,
    text="every schedule within P<=2 (thorough 3) of 2-3 worker programs over Lock/TryLock/LockWithCtx+canceller/cancelled ctx/two attempts/hold across a renewal, plus a Shutdown pseudo thread; oracles: no deadlock with a blocked worker (lost wake-up), cancelled attempts return ctx.Err(), at the end the lock record is gone, the in-memory waiter table is empty and every Locker can be re-acquired, nothing acquires after Shutdown returned",
    note="liveness is judged as 'not blocked at quiescence' (no fairness assumption is needed: the SUT has no spin loops on the in-memory storage); weaker reading of 'after Shutdown': attempts invoked after Shutdown() returned"),
@@ -63,7 +63,7 @@ checks = {
    note="promptness is judged at quiescence (cooperative scheduler: 'eventually when scheduled'); Redis part is small (polling loop) and runs with P<=1"),
  "C09": dict(engine="S", cat="model_checking", tech=S + "; linearizability against a sequential LRU decided by porcupine",
    text="2-3 threads x 1-2 operations over GetOrCreate(a|b)/Remove/Clear, capacities 1..3, create callback with a scheduling point and a free choice succeed/fail, every schedule within the preemption bound with points at the cache mutex, the in-flight wait and inside callbacks; oracles: single-flight counter, linearizability incl. created flag and per-call delete callbacks, create/delete ledger after a final Clear, capacity, in-flight table and list empty at the end",
-   note="delete callbacks contain no scheduling point (they run under the cache mutex); data races are outside a cooperative scheduler"),
+   note="delete callbacks contain no scheduling point (they run under the cache mutex); data races are outside a cooperative scheduler and are audited by the supplementary free-running -race run (lru)"),
  "C12": dict(engine="S", cat="model_checking", tech=S + " with an adversarial virtual clock (clock deviations bounded by K)",
    text="scripts of 1-3(4) futures with delays -1ms/0/1ms/5ms (equal deadlines included), cancel plans none/now/at the fire instant/after firing/twice, 1-2 callers, pool limit 1-2, busy callbacks; every schedule within P and K with points at the package mutex, wake channel, timers, worker spawn and every statement outside the mutex; oracle on the virtual clock: never early, at most once, no start after an early Cancel, uncancelled futures start exactly once, heap indices consistent",
    note="time is virtual: 'early' is judged against the virtual clock read before Call; the +1ns-per-read clock is an artefact that keeps strict After() comparisons progressing"),
